@@ -38,8 +38,8 @@ func loadEngine(repo string) (*Engine, error) {
 	prog, spkgs := ssautil.AllPackages(pkgs, ssa.InstantiateGenerics)
 	prog.Build()
 	e := &Engine{prog: prog, pkg: spkgs[0], strLits: map[string]string{}, globals: map[*ssa.Global]int{},
-		sentinel: map[string]Value{}, unmodelled: map[string]int{}, maxPaths: 20000, loopBound: 3,
-		cellNames: map[int]string{}, lazyCells: map[string]int{}, ufStrs: map[string]string{}, ufPreds: map[string]bool{}, sqlTexts: map[string]bool{},
+		sentinel: map[string]Value{}, unmodelled: map[string]int{}, maxPaths: 60000, loopBound: 3,
+		cellNames: map[int]string{}, lazyCells: map[string]int{}, byteLits: map[int64]bool{}, ufStrs: map[string]string{}, ufPreds: map[string]bool{}, sqlTexts: map[string]bool{},
 		dbErrors: true, workers: runtime.NumCPU(), sessionTimeout: 20 * time.Second, goalTimeout: 8 * time.Second}
 	e.log = func(format string, args ...interface{}) { fmt.Fprintf(os.Stderr, format+"\n", args...) }
 	schema, err := os.ReadFile(repo + "/schema.sql")
